@@ -214,6 +214,9 @@ def bi_tuple(eng, args, kwargs, fr):
         return v
     if isinstance(v, ItemsView):
         return ItemsView(v.ver, v.mode, v.owner, snapshot=True)
+    if isinstance(v, DictVal) or (isinstance(v, PObj) and v.store is not None):
+        holder = v.store if isinstance(v, PObj) else v          # tuple(d): a snapshot of the keys
+        return ItemsView(eng.store_of(holder), "keys", holder, snapshot=True)
     c = eng.concrete_iter(v)
     if c is not None:
         return tuple(c)
@@ -423,9 +426,51 @@ def bi_min(eng, args, kwargs, fr):
     return _minmax(eng, args, False)
 
 
+def _extremum_over_view(eng, gen, ismax):
+    """max(abs(v) for v in d.values()) (also written over .items()) over a symbolic dict: the largest coefficient
+    magnitude (folds.maxabs_of); ValueError on an empty dict.  The element expression is recognised semantically:
+    it must be equal to |value| for an arbitrary item."""
+    n, fr = gen.data
+    if len(n.generators) != 1 or n.generators[0].ifs or not ismax:
+        return None
+    g = n.generators[0]
+    src = eng.eval(g.iter, fr)
+    if not isinstance(src, ItemsView) or eng.concrete_iter(src) is not None:
+        return None
+    ver = src.ver
+    k = eng.fresh("key" if ver.ksort == T.Key else "label", "k")
+    vv = z3.Select(ver.val, k.e)
+    v = SV(vv, "real" if ver.vsort == T.Real else "int")
+    item = {"items": (k, v), "keys": k, "values": v}[src.mode]
+    from .interp import Frame
+    sub = Frame(fr.closure, dict(fr.locals), fr.self_obj, fr.defining_cls)
+    eng.assign(g.target, item, sub)
+    eng.spec += 1
+    try:
+        elt = eng.eval(n.elt, sub)
+    finally:
+        eng.spec -= 1
+    if not isinstance(elt, SV) or elt.t not in ("real", "int"):
+        return None
+    if eng.feasible(zreal(elt) != FO._abs(vv)):
+        return None
+    sz = FO.fold(eng, ver, "size")
+    if not eng.branch(sz > 0):
+        raise PyExc("ValueError", "max() of an empty dict view")
+    M = FO.maxabs_of(eng, ver)
+    kw = ver.maxabs_at
+    if not any(kw.eq(pk) for pk, _ in ver.picked):
+        FO.note_present(eng, ver, kw, z3.Select(ver.val, kw))       # the dict is not empty here: the witness is an item
+    return SV(M, "real")
+
+
 def _minmax(eng, args, ismax):
     if len(args) == 1:
         c = eng.concrete_iter(args[0])
+        if c is None and isinstance(args[0], SeqIter) and args[0].kind == "genexp":
+            r = _extremum_over_view(eng, args[0], ismax)
+            if r is not None:
+                return r
         if c is None:
             raise Unsupported("max/min over a symbolic collection")
         args = c
@@ -582,21 +627,36 @@ def bi_math_log(eng, args, kwargs, fr):
 
 
 def bi_ceil(eng, args, kwargs, fr):
+    """math.ceil(v): the integer c with c - 1 < v <= c (CPython semantics over the reals; floats are reals here)"""
     (v,) = args
+    eng.taint_use("math.ceil() of the symbolic weight", v)
     if isinstance(v, int):
         return v
     if isinstance(v, fractions.Fraction):
         return -((-v.numerator) // v.denominator)
     if isinstance(v, SV) and v.t == "int":
         return v
-    raise Unsupported("ceil of symbolic real")
+    if isinstance(v, SV) and v.t == "real":
+        c = eng.fresh("int", "ceil")
+        eng.facts.add(z3.And(z3.ToReal(c.e) - 1 < v.e, v.e <= z3.ToReal(c.e)))
+        return c
+    raise Unsupported("ceil of %s" % type(v).__name__)
 
 
 def bi_int_bit_length(eng, args, kwargs, fr):
+    """int.bit_length(n): 0 for n == 0, otherwise the b >= 1 with 2^(b-1) <= |n| < 2^b (CPython documentation)"""
     (v,) = args
     if isinstance(v, int):
         return int.bit_length(v)
-    raise Unsupported("bit_length of symbolic int")
+    if isinstance(v, SV) and v.t == "int":
+        n = zint(v)
+        a = z3.If(n < 0, -n, n)
+        b = eng.fresh("int", "bitlen")
+        lo = eng.facts.pow2_term(b.e - 1)
+        hi = eng.facts.pow2_term(b.e)
+        eng.facts.add(z3.And(b.e >= 0, (a == 0) == (b.e == 0), z3.Implies(a > 0, z3.And(lo <= a, a < hi))))
+        return b
+    raise Unsupported("bit_length of %s" % type(v).__name__)
 
 
 # ----------------------------------------------------------------------------------------------- methods of builtins
